@@ -144,10 +144,10 @@ def main(seed, tier):
         key = rng.randbytes(32)
         iv = rng.randbytes(rng.choice([12, 12, 12, 8, 16]))
         n = sizes[ci % len(sizes)] if ci < 3 * len(sizes) else rng.randrange(0, 20000)
-        if tier == "thorough" and ci == 7:
+        if ci == 7:
             n = 4 * 1024 * 1024 + 12345  # more than one decrypt chunk
         payload = rng.randbytes(n)
-        padding = rng.choice([0, 1, 7, 511, 512, 4011, 4095])
+        padding = rng.choice([0, 1, 7, 511, 512, 4011, 4095, 4096, 5000, 70001])
         extras = gen_extra_attrs(rng, rng.choice([0, 0, 1, 3, 6]))
         aad = rng.choice([None, b"", b"ESXConfiguration", rng.randbytes(40)])
         order = rng.choice(["std", "shuffled", "reversed"])
@@ -175,6 +175,13 @@ def main(seed, tier):
         evals += 1
         if out == "ok":
             fail("wrong-key", "decrypt returned plaintext for a different key", rec)
+        # the key-hash gate does not depend on tag verification
+        try:
+            Envelope(io.BytesIO(raw), verify=False).decrypt(bytes(k2), aad=aad)
+            fail("wrong-key", "decrypt(verify=False) returned plaintext for a different key", rec)
+        except Exception:  # noqa: BLE001
+            pass
+        evals += 1
         a2 = (aad or b"") + b"x" if rng.random() < 0.5 or not aad else aad[:-1]
         out, got = attempt(raw, key, a2)
         evals += 1
@@ -204,10 +211,12 @@ def main(seed, tier):
     # command-line tool writes exactly the payload
     from dissect.hypervisor.tools import envelope as tool
 
-    for ci in range(3 if tier == "quick" else 12):
+    for ci in range(6 if tier == "quick" else 24):
         key_id, d1, d2 = rng.randbytes(16), rng.randbytes(16), rng.randbytes(16)
         key = hashlib.pbkdf2_hmac("sha256", d1 + SALT, d2, 100000)
-        payload = rng.randbytes(rng.choice([0, 1, 5000]))
+        payload = rng.randbytes(rng.choice([0, 1, 5000])) + [b"\x00\x00", b"", b"\n", b" \t\r\n", b"\xff", b"\x00"][ci % 6]
+        if ci % 3 == 2:
+            payload = rng.choice([b"\x00", b" ", b"\n"]) + payload
         raw, *_ = build(rng, key, rng.randbytes(12), payload, rng.choice([0, 100]), gen_extra_attrs(rng, 2), None)
         with tempfile.TemporaryDirectory() as td:
             pe, pk, po = (os.path.join(td, x) for x in ("e.ve", "k.info", "out.bin"))
